@@ -161,7 +161,7 @@ def parse_item_block(lines, start, file, path):
                 raise WeaveError("bad cut at line %d: %s" % (i + 1, b))
             spec.replaces.append((mm.group(2), (mm.group(3), mm.group(4)), mm.group(5), "cut?" if mm.group(1) else "cut"))
         elif b.startswith("replace"):
-            mm = re.match(r"replace(-all|\?)?\[([^\]]+)\]\s*<<<(.*?)>>>\s*=>\s*<<<(.*)>>>$", b, re.S)
+            mm = re.match(r"replace(-all|-re|\?)?\[([^\]]+)\]\s*<<<(.*?)>>>\s*=>\s*<<<(.*)>>>$", b, re.S)
             if not mm:
                 raise WeaveError("bad replace at line %d: %s" % (i + 1, b))
             spec.replaces.append((mm.group(2), mm.group(3), mm.group(4), mm.group(1) or ""))
@@ -849,6 +849,13 @@ def expand(unit_path, twin=False, repo=None):
                     text = text[:p0] + new.replace("\\n", "\n") + text[p1 + len(b_):]
                     applied.append({"rule": rule, "old": old[0] + " .. " + old[1], "new": new, "count": 1,
                                     "removed_sha256": hashlib.sha256(removed.encode()).hexdigest(), "removed_lines": removed.count("\n") + 1})
+                    continue
+                if all_ == "-re":
+                    # pattern with captures (\\1 ...): the captured source text is carried over verbatim
+                    text, cnt = re.subn(old, new, text)
+                    if cnt != 1:
+                        raise WeaveError("%s :: %s: replace-re[%s] %r matched %d times" % (file, " :: ".join(path), rule, old, cnt))
+                    applied.append({"rule": rule, "old": old, "new": new, "count": cnt})
                     continue
                 old_ = old.replace("\\n", "\n")
                 new_ = new.replace("\\n", "\n")
